@@ -414,6 +414,8 @@ func (m *Mux) serveHTTP(w http.ResponseWriter, r *http.Request) error {
 			conn:   conn,
 			method: method,
 			params: params,
+
+			maxRecv: m.opts.maxReceiveMessageSize,
 		}
 		herr := hd.handler(&m.opts, stream)
 
